@@ -47,6 +47,17 @@ SPECS = {
     "bytes_then_text_bits": '<start> ::= <magic> <field>\n<magic> ::= b"\\xca\\xfe"\n<field> ::= <key> <flags>\n<key> ::= "k" | "q"\n<flags> ::= <bit>{8}\n<bit> ::= 0 | 1\n',
     # an UNBOUNDED run of bits followed by a text / bytes literal (the literal must only be tried at byte boundaries)
     "bits_plus_then_text": '<start> ::= <bit>+ "a"\n<bit> ::= 0 | 1\n',      # (fuzzed trees may be unaligned: no bytes view)
+    # a regex terminal and a literal terminal with the same text (`r"."` any character, `"."` the dot), the regex defined first
+    "regex_dot_before_literal_dot": '<start> ::= <comment> | <version>\n<comment> ::= "#" <any>*\n<any> ::= r"."\n<version> ::= <num> "." <num>\n<num> ::= r"[0-9]+"\n',
+    # a nullable symbol reached by two alternatives in the same parser column (the second prediction finds it already completed)
+    "nullable_shared_by_alternatives": '<start> ::= <n> "a" | <m> <n> "x"\n<n> ::= "y"?\n<m> ::= "z"?\n',
+    "nullable_star_shared": '<start> ::= <p> <q> "!" | <q> "?"\n<p> ::= "a"*\n<q> ::= "b"*\n',
+    # regex terminals that start with an anchor / a word boundary and do NOT stand at the beginning of the input (a terminal is
+    # matched on its own: its start is the start of the text the regex sees)
+    "anchored_regex_after_text": '<start> ::= "u " <name> ";"\n<name> ::= r"^[ab]+"\n',
+    "word_boundary_regex_after_letter": '<start> ::= "x" <w> "0"\n<w> ::= r"\\bab?"\n',
+    # an optional BYTES regex before text: some words serialise as bytes, others as text; one grammar object parses both kinds
+    "optional_bytes_regex_then_text": '<start> ::= <hdr>? <body>\n<hdr> ::= rb"\\xff[01]"\n<body> ::= r"[ab]+"\n',
     "constrained": '<start> ::= <d> "," <d>\n<d> ::= "1" | "2" | "x"\nwhere int(<d>) >= 1\n',
     "constrained_len": '<start> ::= <a>{1,4}\n<a> ::= "x" | "y"\nwhere len(str(<start>)) % 2 == 0\n',
 }
